@@ -261,9 +261,31 @@ func TestLoaders(t *testing.T) {
 
 // ---- end to end: component post-processors -----------------------------------
 
-type Probe struct{}
+// Probe and Probe2 sit on a cycle, so that an early reference of the probe is requested.
+type Probe struct {
+	Peer *Probe2 `wire:""`
+}
 
 func (p *Probe) Naming() string { return "zz-probe" }
+
+type Probe2 struct {
+	Back *Probe `wire:""`
+}
+
+func (p *Probe2) Naming() string { return "zz-probe2" }
+
+// lazy variants of the three post-processor classes: LazyInit must not change where they sort
+type PPPOL struct{ PPPO }
+
+func (*PPPOL) LazyInit() {}
+
+type PPOOL struct{ PPOO }
+
+func (*PPOOL) LazyInit() {}
+
+type PPNOL struct{ PPNO }
+
+func (*PPNOL) LazyInit() {}
 
 type ppBase struct{ before, after *[]int }
 
@@ -282,6 +304,12 @@ func (r *instRec) PostProcessAfterInstantiation(c any, n string) (bool, error) {
 		*r.inst = append(*r.inst, *r.pid)
 	}
 	return false, nil
+}
+func (r *instRec) GetEarlyBeanReference(c any, n string) (any, error) {
+	if n == "zz-probe" && r.earl != nil {
+		*r.earl = append(*r.earl, *r.pid)
+	}
+	return c, nil
 }
 func (r *instRec) PostProcessProperties(p []*component_definition.Property, c any, n string) ([]*component_definition.Property, error) {
 	return nil, nil
@@ -351,22 +379,33 @@ func TestPostProcessors(t *testing.T) {
 	kit.Rec.Rule(rule)
 	rapid.Check(t, func(t *rapid.T) {
 		specs := genSpecs(t, 10)
-		var before, after, inst []int
+		var before, after, inst, earl []int
 		comps := make([]any, len(specs))
+		lazies := 0
 		for i, s := range specs {
 			pi := pinfo{id: i, class: s.Class, ord: s.Ord, log: &before, name: fmt.Sprintf("pp%02d", i)}
 			id := i
-			ir := instRec{pid: &id, inst: &inst}
-			switch s.Class {
-			case 0:
+			ir := instRec{pid: &id, inst: &inst, earl: &earl}
+			lazy := rapid.IntRange(0, 3).Draw(t, "lazy") == 0
+			if lazy {
+				lazies++
+			}
+			switch {
+			case s.Class == 0 && lazy:
+				comps[i] = &PPPOL{PPPO{PO{pi}, &after, ir}}
+			case s.Class == 0:
 				comps[i] = &PPPO{PO{pi}, &after, ir}
-			case 1:
+			case s.Class == 1 && lazy:
+				comps[i] = &PPOOL{PPOO{OO{pi}, &after, ir}}
+			case s.Class == 1:
 				comps[i] = &PPOO{OO{pi}, &after, ir}
+			case lazy:
+				comps[i] = &PPNOL{PPNO{NO{pi}, &after, ir}}
 			default:
 				comps[i] = &PPNO{NO{pi}, &after, ir}
 			}
 		}
-		comps = append(comps, &Probe{})
+		comps = append(comps, &Probe{}, &Probe2{})
 		comps = rapid.Permutation(comps).Draw(t, "regorder")
 		out := kit.RunApp(app.SetComponents(comps...))
 		if !out.OK() {
@@ -380,6 +419,10 @@ func TestPostProcessors(t *testing.T) {
 		}
 		if err := checkSeq(specs, inst); err != nil {
 			t.Fatalf("after-instantiation sequence on the probe: %v", err)
+		}
+		// zz-probe is created first and handed to zz-probe2 as an early reference: that callback chain too
+		if err := checkSeq(specs, earl); err != nil {
+			t.Fatalf("early-reference callback sequence on the probe (%d lazy post-processors): %v", lazies, err)
 		}
 		d, nt, labels := describe("postprocessors", specs)
 		kit.Rec.Case(d, nt, labels...)
